@@ -8,4 +8,11 @@ PROPS = {
         assumptions=["bufio.Reader / io.ReadFull / io.LimitedReader behave as documented",
                      "allocation measured as runtime.MemStats.TotalAlloc delta, bound 128*L+64KiB"],
     ),
+    "C06": dict(
+        module="Storrent.Props.C06", prop_files=["Storrent/Props/C06.lean"],
+        exe="model-c06", harness="c06", quick_n=12000, thorough_n=120000, thorough_seeds=8,
+        reset_prefixes=None,
+        trusted=["bencoded extension payloads: encoder/decoder pair tied to zeebo/bencode by the correspondence stream only (round-trip theorem covers the fixed-layout messages)"],
+        assumptions=["bufio.Reader over io.MultiReader(init, conn) delivers the concatenation of init and the connection's bytes"],
+    ),
 }
